@@ -152,8 +152,8 @@ fn build_doc(a2ml_text: Option<&str>, blocks: &[(&'static str, Vec<Tok>)]) -> Do
     }
 }
 
-/// a document whose IF_DATA blocks conform to the A2ML block of the file (for the A2ML-interpreted
-/// parts of C01 and C02): text, the token list the written text must hold (comments inside IF_DATA
+/// a document whose IF_DATA blocks conform to the A2ML block of the file, a fifth of them deviating
+/// in one token (for the A2ML-interpreted parts of C01 and C02): text, the token list the written text must hold (comments inside IF_DATA
 /// are not kept), number of IF_DATA blocks
 pub fn gen_conforming_document(rng: &mut Rng) -> (String, vcommon::doc::Flat, usize) {
     let def = gen_def(rng);
@@ -166,6 +166,15 @@ pub fn gen_conforming_document(rng: &mut Rng) -> (String, vcommon::doc::Flat, us
     for k in 0..n {
         let site = if k < sites.len() { sites[k] } else { "MODULE" };
         let inst = gen_instance(rng, &def);
+        if rng.chance(1, 5) {
+            // content that does not conform is kept as uninterpreted data: it must be as stable
+            // over load/write cycles as anything else
+            if let Some((toks, _kind)) = deviate(rng, &inst) {
+                blocks_nc.push((site, toks.clone()));
+                blocks.push((site, toks));
+                continue;
+            }
+        }
         let mut with_c = inst.toks.clone();
         if rng.chance(1, 3) && !with_c.is_empty() {
             for _ in 0..rng.urange(1, 3) {
